@@ -1,6 +1,6 @@
 (* C01: pinned theorems about the JSRef reference interpreter (fuel monotonicity). *)
-From JSRef Require Import Float Syntax Values Static Ops Interp Machine Builtins Run.
-From C01 Require Import Proofs_C01 Model_C01.
+From JSRef Require Import Float Syntax Values Static Ops Promises Interp Machine Builtins Run.
+From C01 Require Import Proofs_C01 Model_C01 Deep_Finally_C01.
 
 Theorem run_deterministic : forall n P o1 o2, run n P = o1 -> run n P = o2 -> o1 = o2.
 Proof. exact run_deterministic_lemma. Qed.
@@ -39,3 +39,24 @@ Theorem call_main_eq_script_expr : forall P n strict st f, main_is_global_data s
 Proof. exact call_main_eq_script_expr_lemma. Qed.
 Check call_main_eq_script_expr : forall P n strict st f, main_is_global_data st f -> is_callable st f = true -> call_main (mk P (Datatypes.S n)) st = eval_step P (mk P (Datatypes.S n)) (global_ctx strict) main_call_expr st.
 Print Assumptions call_main_eq_script_expr.
+
+(* ---- deepening round: boa's lowering of try/finally with break / return routed through finally blocks
+   (jump records, finally_jump_index, JumpTable), in miniature (Deep_Finally_C01.v, module FinallyLowering) *)
+
+Theorem finally_lowering_correct : forall s, FinallyLowering.wf nil s = true ->
+  FinallyLowering.run (FinallyLowering.compile0 s) = (fst (FinallyLowering.exec s), FinallyLowering.top (snd (FinallyLowering.exec s))).
+Proof. exact FinallyLowering.compile_correct_lemma. Qed.
+Check finally_lowering_correct : forall s, FinallyLowering.wf nil s = true ->
+  FinallyLowering.run (FinallyLowering.compile0 s) = (fst (FinallyLowering.exec s), FinallyLowering.top (snd (FinallyLowering.exec s))).
+Print Assumptions finally_lowering_correct.
+
+Theorem finally_lowering_stale_refuted :
+  exists s, FinallyLowering.wf nil s = true /\ FinallyLowering.exec s = (cons 10 (cons 11 (cons 99 nil)), FinallyLowering.Normal) /\
+            FinallyLowering.run (fst (FinallyLowering.compile_stale nil nil s)) = (cons 10 (cons 11 nil), FinallyLowering.Fall) /\
+            FinallyLowering.run (FinallyLowering.compile0 s) = (cons 10 (cons 11 (cons 99 nil)), FinallyLowering.Fall).
+Proof. exact FinallyLowering.compile_stale_refuted_lemma. Qed.
+Check finally_lowering_stale_refuted :
+  exists s, FinallyLowering.wf nil s = true /\ FinallyLowering.exec s = (cons 10 (cons 11 (cons 99 nil)), FinallyLowering.Normal) /\
+            FinallyLowering.run (fst (FinallyLowering.compile_stale nil nil s)) = (cons 10 (cons 11 nil), FinallyLowering.Fall) /\
+            FinallyLowering.run (FinallyLowering.compile0 s) = (cons 10 (cons 11 (cons 99 nil)), FinallyLowering.Fall).
+Print Assumptions finally_lowering_stale_refuted.
